@@ -6,7 +6,8 @@ import ast
 from ..astutil import (call_name, calls_in, walk_no_nested, params_of, kw,
                        is_const, single_defs)
 from ..cfg import (cfg_of, loop_body_paths, expr_owner_node, root_name,
-                   facts_at, reaching_defs, enumerate_paths)
+                   facts_at, reaching_defs, enumerate_paths, decompose)
+from ..shape import parse_expr
 from ..loader import Program, AnalysisError, unparse
 from ..pathutil import (path_method_calls, facts_before, describe_path,
                         node_calls)
@@ -632,67 +633,150 @@ def rule_r4(chk, prog):
     f = m.func('ReplaceByVariable.mutations')
     cfg = cfg_of(f)
     es = _emissions(f)
-    comps = [c for c in ast.walk(f) if isinstance(c, ast.ListComp)]
-    strict = []
-    for c in comps:
-        for g in c.generators:
-            for cond in g.ifs:
-                if isinstance(cond, ast.Compare) and unparse(
-                        cond.comparators[0]) == 'node.data':
-                    strict.append((cond, isinstance(cond.ops[0],
-                                                    (ast.Gt, ast.Lt))))
-    chk.floor('C03.R4', 'order filters in ReplaceByVariable', len(strict), 2)
-    for cond, ok in strict:
-        chk.check('C03.R4', 'mutators_core.ReplaceByVariable.mutations',
-                  cond, ok, 'the lexicographic filter on leaf replacement is '
-                  'not strict: a variable can be replaced by itself / two '
-                  'variables can replace each other', loc=m.loc(cond),
-                  nontrivial=True)
-    ops = {type(c.ops[0]) for c, _ in strict}
-    chk.check('C03.R4', 'mutators_core.ReplaceByVariable.mutations',
-              'inc and dec use opposite strict orders',
-              ops == {ast.Gt, ast.Lt}, 'both modes filter in the same '
-              'direction or not strictly', loc=m.loc(f), nontrivial=True)
+    # what is known about a candidate v when it is emitted: the filters its
+    # list went through (comprehension conditions, filter(lambda), the guards
+    # in front of an append) on every definition chain
+    RD = reaching_defs(cfg, params_of(f))
+    from ..astutil import subst as _subst
+    V = ast.Name(id='V_', ctx=ast.Load())
+
+    def canon(e, var):
+        return unparse(_subst(e, {var: V}))
+
+    def admission(node_, name, depth=0):
+        """list of fact sets (alternatives) for elements of list ``name``"""
+        if depth > 6:
+            return [set()]
+        defs = (RD.get(node_) or {}).get(name) or ()
+        alts = []
+        for d in defs:
+            if d == 'param' or not (d.kind == 'stmt' and isinstance(
+                    d.ast, ast.Assign)):
+                alts.append(set())
+                continue
+            v = d.ast.value
+            site = set(facts_at(f, d.ast))
+            if isinstance(v, (ast.ListComp, ast.GeneratorExp)) and len(
+                    v.generators) == 1 and isinstance(
+                        v.generators[0].target, ast.Name) and unparse(
+                            v.elt) == v.generators[0].target.id:
+                g = v.generators[0]
+                own = set()
+                for c in g.ifs:
+                    for (x, p_) in decompose(c, True):
+                        own.add((canon(x, g.target.id), p_))
+                inner = admission(d, g.iter.id, depth + 1) if isinstance(
+                    g.iter, ast.Name) else [set()]
+                alts += [own | site | a for a in inner]
+            elif isinstance(v, ast.Call) and call_name(v) == 'filter' and \
+                    len(v.args) == 2 and isinstance(v.args[0], ast.Lambda):
+                lam = v.args[0]
+                own = set()
+                for (x, p_) in decompose(lam.body, True):
+                    own.add((canon(x, lam.args.args[0].arg), p_))
+                inner = admission(d, v.args[1].id, depth + 1) if isinstance(
+                    v.args[1], ast.Name) else [set()]
+                alts += [own | site | a for a in inner]
+            elif isinstance(v, ast.Call) and call_name(v) in (
+                    'list', 'sorted', 'tuple') and v.args and isinstance(
+                        v.args[0], ast.Name):
+                alts += admission(d, v.args[0].id, depth + 1)
+            elif isinstance(v, ast.List) and not v.elts:
+                # accumulation: every append of an element to this list
+                found = False
+                for c in calls_in(f):
+                    if isinstance(c.func, ast.Attribute) and \
+                            c.func.attr == 'append' and unparse(
+                                c.func.value) == name and c.args and \
+                            isinstance(c.args[0], ast.Name):
+                        found = True
+                        ev = c.args[0].id
+                        own = set()
+                        for (t, p_) in facts_at(f, c):
+                            e_ = parse_expr(t)
+                            if e_ is not None:
+                                own.add((canon(e_, ev), p_))
+                        # the loop the element comes from
+                        lp = getattr(c, '_parent', None)
+                        src = None
+                        while lp is not None and lp is not f:
+                            if isinstance(lp, ast.For) and isinstance(
+                                    lp.target, ast.Name) and \
+                                    lp.target.id == ev:
+                                src = lp.iter
+                                break
+                            lp = getattr(lp, '_parent', None)
+                        inner = admission(cfg.node_of[id(lp)], src.id,
+                                          depth + 1) if isinstance(
+                                              src, ast.Name) and lp is not \
+                            None and id(lp) in cfg.node_of else [set()]
+                        # one alternative per iteration path that reaches
+                        # the append (the guards differ by path)
+                        owns = []
+                        if lp is not None and id(lp) in cfg.node_of:
+                            an = expr_owner_node(cfg, c)
+                            for pth in loop_body_paths(cfg, lp):
+                                if an in pth.nodes:
+                                    k_ = pth.nodes.index(an)
+                                    fs = set()
+                                    for (t, p_) in facts_before(pth, k_):
+                                        e_ = parse_expr(t)
+                                        if e_ is not None:
+                                            fs.add((canon(e_, ev), p_))
+                                    owns.append(fs | own)
+                        for o_ in (owns or [own]):
+                            alts += [o_ | a for a in inner]
+                if not found:
+                    alts.append(set())
+            else:
+                alts.append(site)
+        return alts or [set()]
+
+    nchain = 0
     for e in es:
-        # the iterated candidates at the emission are filtered on every chain
-        n = expr_owner_node(cfg, e)
         comp = getattr(e, '_parent', None)
         while comp is not None and not isinstance(comp, (ast.ListComp,
                                                          ast.GeneratorExp)):
             comp = getattr(comp, '_parent', None)
         src = comp.generators[0].iter if comp is not None else None
-
-        def is_deffun_filter(v):
-            if isinstance(v, ast.Call) and call_name(v) == 'filter' and \
-                    'not is_defined_fun(' in unparse(v.args[0]):
-                return True
-            if isinstance(v, (ast.ListComp, ast.GeneratorExp)) and len(
-                    v.generators) == 1 and isinstance(
-                        v.generators[0].target, ast.Name):
-                tv = v.generators[0].target.id
-                return any(unparse(c) == f'not is_defined_fun({tv})'
-                           for c in v.generators[0].ifs) and unparse(
-                               v.elt) == tv
-            return False
-
-        ok = isinstance(src, ast.Name) and _filtered_by(
-            f, n, src.id, is_deffun_filter)
-        chk.check('C03.R4', 'mutators_core.ReplaceByVariable.mutations',
-                  f'candidates "{unparse(src)}" exclude defined functions',
-                  ok, 'on some path the emitted candidates are not filtered '
-                  'by "not is_defined_fun": replacing a term by a defined '
-                  'function symbol and inlining it again is a 2-cycle',
-                  loc=m.loc(e), nontrivial=True)
-        leaf_strict = True
-    # ... on the leaf path the strict filter is applied
-    IN, _ = cfg.guard_facts()
-    for cond, _ok in strict:
-        facts = facts_at(f, cond)
-        chk.check('C03.R4', 'mutators_core.ReplaceByVariable.mutations',
-                  f'{unparse(cond)} applies to leaves',
-                  _has(facts, lambda t, p: t in ('is_leaf(node)',
-                                                 'node.is_leaf()') and p),
-                  'order filter not under the leaf test', loc=m.loc(cond))
+        n = expr_owner_node(cfg, e)
+        if not isinstance(src, ast.Name):
+            raise AnalysisError(
+                f'{m.loc(e)}: candidates of ReplaceByVariable do not come '
+                'from a named list')
+        here = set(facts_at(f, e))
+        for alt in admission(n, src.id):
+            nchain += 1
+            facts = alt | here
+            desc = ' & '.join(sorted(
+                ('' if p_ else 'not ') + t for (t, p_) in alt))[:120]
+            ok = ('is_defined_fun(V_)', False) in facts
+            chk.check('C03.R4', 'mutators_core.ReplaceByVariable.mutations',
+                      f'chain [{desc}]: defined functions excluded', ok,
+                      'on some path the emitted candidates are not filtered '
+                      'by "not is_defined_fun": replacing a term by a defined '
+                      'function symbol and inlining it again is a 2-cycle',
+                      loc=m.loc(e), nontrivial=True)
+            leaf = any(t in ('is_leaf(node)', 'node.is_leaf()') and p_
+                       for (t, p_) in facts)
+            if not leaf:
+                continue
+            inc = [p_ for (t, p_) in facts
+                   if t.replace('"', "'") == "self.repl_mode == 'inc'"]
+            gt = ('V_ > node.data', True) in facts or (
+                'node.data < V_', True) in facts
+            lt = ('V_ < node.data', True) in facts or (
+                'node.data > V_', True) in facts
+            ok = bool(inc) and ((inc[0] and gt and not lt)
+                                or (not inc[0] and lt and not gt))
+            chk.check('C03.R4', 'mutators_core.ReplaceByVariable.mutations',
+                      f'chain [{desc}]: strict order on leaves', ok,
+                      'on a leaf the candidates are not restricted to '
+                      'strictly larger (inc) / strictly smaller (dec) names: '
+                      'a variable can be replaced by itself, or two '
+                      'variables can replace each other', loc=m.loc(e),
+                      nontrivial=True)
+    chk.floor('C03.R4', 'candidate chains of ReplaceByVariable', nchain, 2)
     filt = m.func('ReplaceByVariable.filter')
     ft = unparse(filt)
     chk.check('C03.R4', 'mutators_core.ReplaceByVariable.filter',
